@@ -5141,9 +5141,18 @@ class DfaCompileCtx:
             if DFTransition.Else in transition.on_values:
                 effective.update(transition.target.compute_foreign_else_definition(orig_state))
 
-            next_target = transition.target[effective]
+            # every symbol this transition stands for has to take the same transition of the target
+            # (looking the whole set up at once would settle for the target's Else transition when the set spans several)
+            next_targets = set(transition.target[symbol] for symbol in effective)
+            if len(next_targets) != 1:
+                continue
+            next_target = next_targets.pop()
 
             if next_target is None or next_target.is_fallthrough:
+                continue
+
+            # an accepting state does not take its error-handling transitions: it reports DONE
+            if next_target.error_handling and transition.target in self.dfa.accepting_states:
                 continue
 
             # Are there actions? If so, does this violate the threshold
